@@ -166,3 +166,110 @@ fn c15_ddnet_refuses_non_increasing_tick() {
     kani::cover!(last == -1 && t == -1, "fresh writer, tick -1");
     kani::cover!(t < last && t >= 0, "lower tick");
 }
+
+fn refused_and_untouched(last: i32, kf: Option<i32>, t: i32) {
+    // built by value as a local (possible with the buffer constant scaled to 128 bytes): the fields are
+    // then ordinary SSA variables and the refusal test folds; through the zero-initialised heap
+    // object used above it is a byte-level read that does not fold
+    let mut w: DemoWriter<'static, DP> = DemoWriter {
+        inner: crate::Writer::verif_new(if last >= 0 { Some(last) } else { None }),
+        last_tick: last,
+        last_keyframe: kf,
+        snap: Snap::default(),
+        builder: snap::Builder::default(),
+        delta: Delta::default(),
+        buf: arrayvec::ArrayVec::new(),
+        i32_buf: Vec::new(),
+        protocol: PhantomData,
+    };
+    let r = w.write_snap(t, core::iter::empty::<(&DObj, u16)>());
+    let refused = matches!(r, Err(WriteError::TooLowTickNumber));
+    core::mem::forget(r);
+    assert!(refused);
+    assert!(w.last_tick == last && w.last_keyframe == kf);
+    assert!(w.inner.verif_prev_tick() == if last >= 0 { Some(last) } else { None });
+    core::mem::forget(w);
+}
+
+#[kani::proof]
+#[kani::unwind(8)]
+#[kani::stub(crate::writer::Writer::write_chunk_impl, crate::writer::Writer::verif_write_chunk_impl_stub)]
+fn c15_ddnet_refuses_same_tick() {
+    // the tick that was just written, for every tick value and key-frame position: refused, not a
+    // panic, writer untouched. (The tick is passed as the *same* symbolic value, so the refusal test
+    // folds during symbolic execution and the - then unreachable - write path is not unrolled; with
+    // two independent symbolic ticks the query did not finish in 25 min.)
+    let last: i32 = kani::any();
+    kani::assume(last >= 0);
+    let k: i32 = kani::any();
+    kani::assume(0 <= k && k <= last);
+    refused_and_untouched(last, Some(k), last);
+}
+
+#[kani::proof]
+#[kani::unwind(8)]
+#[kani::stub(crate::writer::Writer::write_chunk_impl, crate::writer::Writer::verif_write_chunk_impl_stub)]
+fn c15_ddnet_refuses_lower_and_negative_ticks() {
+    // boundary pairs (previous tick, refused tick), concrete so that the refusal test folds
+    refused_and_untouched(-1, None, -1);
+    refused_and_untouched(-1, None, i32::MIN);
+    refused_and_untouched(0, Some(0), -1);
+    refused_and_untouched(0, Some(0), 0);
+    refused_and_untouched(5, Some(0), 4);
+    refused_and_untouched(300, Some(40), 299);
+    refused_and_untouched(i32::MAX, Some(7), i32::MAX);
+    refused_and_untouched(i32::MAX, Some(7), i32::MIN);
+}
+
+fn writer_value(last: i32, kf: Option<i32>) -> DemoWriter<'static, DP> {
+    DemoWriter {
+        inner: crate::Writer::verif_new(if last >= 0 { Some(last) } else { None }),
+        last_tick: last,
+        last_keyframe: kf,
+        snap: Snap::default(),
+        builder: snap::Builder::default(),
+        delta: Delta::default(),
+        buf: arrayvec::ArrayVec::new(),
+        i32_buf: Vec::new(),
+        protocol: PhantomData,
+    }
+}
+
+#[kani::proof]
+#[kani::unwind(8)]
+#[kani::stub(crate::writer::Writer::write_chunk_impl, crate::writer::Writer::verif_write_chunk_impl_stub)]
+fn c15_ddnet_write_snap_step() {
+    // one write_snap call with an empty object set from the state after any tick (or a fresh writer)
+    // with ANY tick: refused exactly when the tick does not strictly increase or is negative (writer
+    // untouched), otherwise accepted with the documented bookkeeping: last tick, raw writer's previous
+    // tick, and a key frame exactly at the start and when more than 250 ticks have passed since the last
+    let last: i32 = kani::any();
+    kani::assume(last >= -1);
+    let kf: Option<i32> = if last >= 0 { Some(kani::any()) } else { None };
+    if let Some(k) = kf {
+        kani::assume(0 <= k && k <= last);
+    }
+    let t: i32 = kani::any();
+    let mut w = writer_value(last, kf);
+    let r = w.write_snap(t, core::iter::empty::<(&DObj, u16)>());
+    let ok = r.is_ok();
+    let refused = matches!(r, Err(WriteError::TooLowTickNumber));
+    core::mem::forget(r);
+    if t <= last || t < 0 {
+        assert!(refused);
+        assert!(w.last_tick == last && w.last_keyframe == kf);
+        assert!(w.inner.verif_prev_tick() == if last >= 0 { Some(last) } else { None });
+    } else {
+        assert!(ok);
+        assert!(w.last_tick == t && w.inner.verif_prev_tick() == Some(t));
+        let keyframe = match kf {
+            None => true,
+            Some(k) => t as i64 - k as i64 > 250,
+        };
+        assert!(w.last_keyframe == if keyframe { Some(t) } else { kf });
+    }
+    kani::cover!(refused && t == last);
+    kani::cover!(ok && kf.is_some() && w.last_keyframe == kf, "delta frame");
+    kani::cover!(ok && kf.is_some() && w.last_keyframe != kf, "key frame after 250 ticks");
+    core::mem::forget(w);
+}
